@@ -506,3 +506,29 @@ func brokenOf(a *AuditInfo) []string {
 	}
 	return a.Broken
 }
+
+// shrinkBytes: greedy delta-debugging on byte spans; pred(x) = "x still fails the same way".
+func shrinkBytes(src []byte, pred func([]byte) bool) []byte {
+	cur := append([]byte{}, src...)
+	budget := 4000
+	for size := len(cur) / 2; size >= 1; {
+		changed := false
+		for i := 0; i+size <= len(cur) && budget > 0; {
+			cand := append(append([]byte{}, cur[:i]...), cur[i+size:]...)
+			budget--
+			if pred(cand) {
+				cur = cand
+				changed = true
+			} else {
+				i += size
+			}
+		}
+		if !changed || size > len(cur) {
+			size /= 2
+		}
+		if budget <= 0 {
+			break
+		}
+	}
+	return cur
+}
